@@ -12,7 +12,7 @@ def fam_sig(av):
 
 def half_obligations(ctx, ck, quals, want_sums=(), want_divs=(), sym_funcs=()):
     """records obligations; returns dict of counts"""
-    counts = dict(products=0, psi_calls=0, sums=0, divisions=0, selections=0)
+    counts = dict(products=0, psi_calls=0, sums=0, divisions=0, selections=0, missing_factors=0)
     for q in quals:
         # private helpers inlined: the terms of a sum may be computed in a helper
         f = ctx.flat(q)
@@ -52,6 +52,7 @@ def half_obligations(ctx, ck, quals, want_sums=(), want_divs=(), sym_funcs=()):
                 single = av.tags is not None and len(av.tags) == 1
                 tg = fmt_tags(av.tags)
                 tagsets.append(av.tags)
+                counts['missing_factors'] += len(miss)      # each factor a term lacks is one product fewer
                 ck.ob('R-HALF.complete-term', '%s|term%s|families' % (q, tg), not miss, f.loc(term),
                       'term of half %s lacks factor(s) %s: %s' % (tg, miss, norm(term)[:70]) if miss
                       else 'term of half %s has potential, sign, direction, ground sign' % tg)
